@@ -5,7 +5,7 @@ use crate::ops::{Op, RStep, TimeField, WStep};
 use crate::rng::Rng;
 use std::collections::BTreeSet;
 
-pub const NAMES: &[&str] = &["a", "ab", "a.b", "b", "é", "d.x", ".h", "x_w"];
+pub const NAMES: &[&str] = &["a", "ab", "a.b", "b", "é", "d.x", ".h", "x_w", "..x", "..."];
 
 #[derive(Clone, Debug)]
 pub struct Universe {
